@@ -1255,6 +1255,77 @@ pub fn campaign(run: &mut Run, focus: Focus) {
         }
     }
 
+    // (B2b) consistent chunk shortening: every chunk of the generated bases cut to every body length below its own
+    // (all lengths up to 96, sampled beyond), with the chunk-size, frame-size and file-size fields adjusted - the
+    // chunk ends early but nothing else in the file is inconsistent
+    {
+        let mut work: Vec<(usize, usize, usize)> = vec![];
+        let scans: Vec<scan::Scan> = bases.iter().map(|(_, b, _)| scan::scan(b)).collect();
+        for (bi, (bname, _, _)) in bases.iter().enumerate().take(if thorough { 300 } else { 40 }) {
+            if !bname.starts_with("generated-") || !scans[bi].complete {
+                continue;
+            }
+            for (ci, c) in scans[bi].chunks.iter().enumerate() {
+                let body = c.end - c.start - 6;
+                for l in 0..body {
+                    if l < 96 || l % (1 + body / 16) == 0 || l + 8 >= body {
+                        work.push((bi, ci, l));
+                    }
+                }
+            }
+        }
+        let results = par_chunks(
+            lanes,
+            work.len() as u64,
+            || (Stats::default(), Vec::<Violation>::new()),
+            |acc, i| {
+                let (bi, ci, l) = work[i as usize];
+                let (bname, bytes, _) = &bases[bi];
+                let c = &scans[bi].chunks[ci];
+                let cut = (c.end - c.start - 6) - l;
+                let mut b = Vec::with_capacity(bytes.len());
+                b.extend_from_slice(&bytes[..c.start + 6 + l]);
+                b.extend_from_slice(&bytes[c.end..]);
+                b[c.start..c.start + 4].copy_from_slice(&((6 + l) as u32).to_le_bytes());
+                let fs = scans[bi].frames[c.frame as usize].0;
+                let fsz = u32::from_le_bytes([b[fs], b[fs + 1], b[fs + 2], b[fs + 3]]).wrapping_sub(cut as u32);
+                b[fs..fs + 4].copy_from_slice(&fsz.to_le_bytes());
+                if u32::from_le_bytes([bytes[0], bytes[1], bytes[2], bytes[3]]) as usize == bytes.len() {
+                    let n = b.len() as u32;
+                    b[0..4].copy_from_slice(&n.to_le_bytes());
+                }
+                let lane = (i % lanes as u64) as usize;
+                let v = pool.run(lane, &b, flags, i);
+                let ops = vec![format!("shorten-chunk:type={:#06x}@{} body {}->{}", c.ctype, c.start, c.end - c.start - 6, l), format!("base:{}", bname)];
+                match judge(focus, &b, &v, &ops, false) {
+                    Ok(mut o) => {
+                        o.labels.retain(|l| !l.starts_with("op:base") && !l.starts_with("op:shorten"));
+                        o.labels.push(format!("shorten-chunk:{:#06x}", c.ctype));
+                        acc.0.record(&o)
+                    }
+                    Err(fl) => {
+                        acc.0.evaluations += 1;
+                        if acc.1.len() < 3 && !acc.1.iter().any(|x| x.failure.signature == fl.signature) {
+                            acc.1.push(Violation { case: json!({"hex": hex(&b), "ops": ops}), failure: fl });
+                        }
+                    }
+                }
+            },
+        );
+        for (st, viols) in results {
+            run.stats.merge(st);
+            for v in viols {
+                if run.is_known(&v.failure.signature) {
+                    *run.stats.excluded_known.entry(v.failure.signature.clone()).or_insert(0) += 1;
+                    continue;
+                }
+                if run.violations.len() < 8 && !run.violations.iter().any(|x| x.failure.signature == v.failure.signature) {
+                    run.violations.push(v);
+                }
+            }
+        }
+    }
+
     // (B3) the path-based entry point (AsepriteFile::read_file): every base file with its header
     // file-size field set to each boundary value, and the unmodified base
     if focus == Focus::C12 || focus == Focus::C04 {
